@@ -594,6 +594,9 @@ func run(c *vm.Ctx) {
 		if i%10 == 2 {
 			flavour = "mem+foreign"
 		}
+		if i%10 == 7 {
+			flavour = "mem+shortreads" // in both tiers (the replacement above only happens in the quick one)
+		}
 		nops := r.Range(1, 400)
 		if i%3 == 0 {
 			nops = r.Range(1, 40)
